@@ -9,4 +9,4 @@ def run(ctx):
     ctx.trusted_base += depslib_trusted()
     depslib.run_engine_check(ctx, ctx.pid, 400 if ctx.quick else 6000, serial_bias=(ctx.pid == "C13"))
     from checks.c01 import contention
-    contention(ctx, parts=("ctxerr", "wide", "long", "ambient"), rounds=200)      # a member failing with the context's own error stops a serial call like any other failure
+    contention(ctx, parts=("ctxerr", "wide", "long", "ambient", "api", "custom"), rounds=200)      # a member failing with the context's own error stops a serial call like any other failure
